@@ -340,6 +340,66 @@ func TestVerif_C28(t *testing.T) {
 		prebuilt = as
 		finalizeOp("node-accept", as.NodeId, atx, as.Timestamp)
 	}
+	// Batch rule on the main network id, before and after the consensus-reference activation time (the kernel
+	// relaxes the reference rule for historical main-network snapshots; the batch rule has no such exemption).
+	{
+		mn := &Node{networkId: verifMainnetId()}
+		pool := ordinary(4)
+		var cons []*common.VersionedTransaction
+		for i := 0; i < 6; i++ {
+			tx := common.NewTransactionV5(common.XINAssetId)
+			switch i % 3 {
+			case 0:
+				tx.AddUniversalMintInput(uint64(1800+i), common.NewInteger(10))
+				verifgen.AddOutputs(tx, []verifgen.OutSpec{w.Spec(common.NewInteger(10), 1)})
+			case 1:
+				tx.AddInput(crypto.Blake3Hash([]byte(fmt.Sprint("mn-pledge", i))), 0)
+				verifgen.AddOutputs(tx, []verifgen.OutSpec{{Type: common.OutputTypeNodePledge, Amount: common.KernelNodePledgeAmount}})
+			default:
+				tx.AddInput(crypto.Blake3Hash([]byte(fmt.Sprint("mn-remove", i))), 0)
+				verifgen.AddOutputs(tx, []verifgen.OutSpec{{Type: common.OutputTypeNodeRemove, Amount: common.KernelNodePledgeAmount}})
+			}
+			cons = append(cons, tx.AsVersioned())
+		}
+		for _, ts := range []uint64{mainnetConsensusReferenceForkAt - uint64(400*24*time.Hour), mainnetConsensusReferenceForkAt - 1, mainnetConsensusReferenceForkAt, mainnetConsensusReferenceForkAt + uint64(time.Hour)} {
+			for _, finalized := range []bool{false, true} {
+				for _, ctx := range cons {
+					if len(pool) == 0 {
+						break
+					}
+					txs := []*common.VersionedTransaction{ctx, pool[rng.Intn(len(pool))]}
+					if rng.Intn(2) == 0 && len(pool) > 1 {
+						txs = []*common.VersionedTransaction{pool[0], ctx, pool[1]}
+					}
+					snap := &common.Snapshot{Version: common.SnapshotVersionCommonEncoding, NodeId: f.net.NodeIds[0], RoundNumber: 3, Timestamp: ts}
+					found := map[crypto.Hash]*common.VersionedTransaction{}
+					for _, tx := range txs {
+						snap.Transactions = append(snap.Transactions, tx.PayloadHash())
+						found[tx.PayloadHash()] = tx
+					}
+					snap.Hash = snap.PayloadHash()
+					var err error
+					panicked, _, _ := verifkit.Guard(func() { err = mn.validateKernelSnapshot(snap, found, finalized) })
+					r.Eval()
+					before := ts < mainnetConsensusReferenceForkAt
+					verdict := "rejected"
+					if panicked {
+						verdict = "panicked"
+					} else if err == nil {
+						verdict = "accepted"
+					}
+					cls := fmt.Sprintf("main-network-batch|before-activation=%v|finalized=%v", before, finalized)
+					r.Nontrivial(cls + "|" + verdict + fmt.Sprint("|", ctx.TransactionType()))
+					r.Count("main_network_batch_probes_"+verdict, 1)
+					if verdict == "accepted" {
+						r.Violation("C28|batch|non-batchable-in-multi-transaction-snapshot|"+cls,
+							fmt.Sprintf("on the main network id a snapshot at %d with %d transactions containing a type %d transaction passed the batch rules (finalized=%v)", ts, len(txs), ctx.TransactionType(), finalized),
+							map[string]any{"class": cls, "types": vC28Types(txs), "timestamp": ts})
+					}
+				}
+			}
+		}
+	}
 	r.Note("consensus_operations_in_first_history", opsFirst)
 	r.Note("consensus_operations_in_history", len(chainOps))
 	if len(chainOps) < 3 || opsFirst < 3 {
